@@ -873,31 +873,83 @@ fn connect_run(sc: &BuilderSc, m: &ModelB, want: &ModelIsi, imp: Imp) -> Connect
         };
         let addr = listener.local_addr().unwrap();
         let calls = sc.calls.clone();
-        let res = guarded(move || -> Result<(), String> {
+        let want_len = expected_frame(m.mode, want).map(|b| b.len()).unwrap_or(0);
+        let l2 = listener.try_clone();
+        // what the host sees WHILE the connection is still held by the application (the handshake
+        // is "sent" when connect returns, not when the connection is dropped), for the first of
+        // the two connections
+        let res = guarded(move || -> Result<Option<(Vec<u8>, Vec<u8>)>, String> {
             let b = apply(&calls, addr);
+            let mut early: Option<Vec<u8>> = None;
+            let mut first_stream: Option<std::net::TcpStream> = None;
+            let mut held_open = |early: &mut Option<Vec<u8>>| {
+                if early.is_some() || want_len == 0 {
+                    return;
+                }
+                if let Ok(l) = &l2 {
+                    if let Ok((mut s, _)) = l.accept() {
+                        let _ = s.set_read_timeout(Some(Duration::from_millis(1500)));
+                        let mut got = vec![0u8; want_len];
+                        let mut n = 0;
+                        while n < want_len {
+                            match s.read(&mut got[n..]) {
+                                Ok(0) | Err(_) => break,
+                                Ok(k) => n += k,
+                            }
+                        }
+                        got.truncate(n);
+                        *early = Some(got);
+                        first_stream = Some(s);
+                    }
+                }
+            };
             // "The Builder is not consumed and may be reused": connect twice from the same builder
-            for _ in 0..2 {
+            for nth in 0..2 {
                 match imp {
                     Imp::Blocking => {
                         let c = b.connect_blocking().map_err(|e| format!("{:?}", e))?;
+                        if nth == 0 {
+                            held_open(&mut early);
+                        }
                         drop(c);
                     },
                     Imp::Tokio => {
                         let rt = tokio::runtime::Builder::new_current_thread().enable_all().build().unwrap();
                         rt.block_on(async {
                             let c = b.connect_async().await.map_err(|e| format!("{:?}", e))?;
+                            if nth == 0 {
+                                held_open(&mut early);
+                            }
                             drop(c);
                             Ok::<(), String>(())
                         })?;
                     },
                 }
             }
-            Ok(())
+            // whatever else the first connection sent before it was closed
+            let mut rest = Vec::new();
+            if let Some(mut s) = first_stream {
+                let _ = s.set_read_timeout(Some(Duration::from_secs(10)));
+                let _ = s.read_to_end(&mut rest);
+            }
+            Ok(early.map(|e| (e, rest)))
         });
-        match res {
+        let early = match res {
             Err(p) => return fail("connect.panic", format!("{} {} (calls: {})", tag, p, summarize(&sc.calls))),
             Ok(Err(e)) => return fail("connect.error", format!("{} connecting to a listening loopback socket failed: {}", tag, e)),
-            Ok(Ok(())) => {},
+            Ok(Ok(e)) => e,
+        };
+        if let (Some((e, rest)), Ok(exp)) = (&early, expected_frame(m.mode, want)) {
+            if *e == exp && !rest.is_empty() {
+                return fail("connect.wire_mismatch", format!("{} after the ISI the first connection sent {} more before it was closed; the ISI is the first and only frame", tag, hex::enc(rest)));
+            }
+            if *e != exp {
+                return fail(
+                    "connect.isi_not_sent_while_open",
+                    format!("{} with the connection still held open the host had received {} ({} bytes) after 1.5 s; the configured ISI ({:?}) encodes to {} (calls: {})", tag, hex::enc(e), e.len(), m.mode, hex::enc(&exp), summarize(&sc.calls)),
+                );
+            }
+            probes.push("isi_seen_while_connection_open");
         }
         probes.push(if imp == Imp::Blocking { "connect_tcp_blocking" } else { "connect_tcp_tokio" });
         let exp = match expected_frame(m.mode, want) {
@@ -905,7 +957,7 @@ fn connect_run(sc: &BuilderSc, m: &ModelB, want: &ModelIsi, imp: Imp) -> Connect
             Err(_) => return ConnectResult { violation: None, probes, digest: String::new() },
         };
         let mut got = Vec::new();
-        for nth in 0..2 {
+        for nth in (if early.is_some() { 1 } else { 0 })..2 {
             let (mut s, _) = match listener.accept() {
                 Ok(x) => x,
                 Err(e) => return fail("connect.error", format!("{} accept failed: {}", tag, e)),
